@@ -89,14 +89,28 @@ impl Hdl {
 }
 
 pub fn parse_item(data: &[u8]) -> Option<(u32, u8, u8)> {
-    if data.len() < 6 {
+    if data.is_empty() {
         return None;
+    }
+    if data.len() < 6 {
+        // short items (1..=5 bytes): the whole content is the tag; key from the first byte
+        let mut t = [0u8; 4];
+        for (i, b) in data.iter().take(4).enumerate() {
+            t[i] = *b;
+        }
+        let tag = u32::from_be_bytes(t) ^ ((data.len() as u32) << 28) ^ (*data.last().unwrap() as u32) << 20 | 0x8000_0000;
+        return Some((tag, data[0] % 4, data.len() as u8));
     }
     Some((u32::from_be_bytes([data[0], data[1], data[2], data[3]]), data[4], data[5]))
 }
 
 pub fn make_item(tag: u32, key: u8, version: u8, total_len: usize, fill: u8) -> Vec<u8> {
-    let mut v = Vec::with_capacity(total_len.max(6));
+    if total_len < 6 {
+        // short item: content derived from the tag so that different tags give different bytes (mostly)
+        let t = tag.to_be_bytes();
+        return (0..total_len.max(1)).map(|i| t[3 - (i % 4)] ^ key.wrapping_mul(17) ^ version ^ (i as u8)).collect();
+    }
+    let mut v = Vec::with_capacity(total_len);
     v.extend_from_slice(&tag.to_be_bytes());
     v.push(key);
     v.push(version);
@@ -118,7 +132,7 @@ impl BroadcastHandler<Id> for Hdl {
         }
         let Some((tag, key, version)) = parse_item(data) else {
             self.log.borrow_mut().push(entry);
-            return Err(HErr("item too short"));
+            return Err(HErr("empty item"));
         };
         let fresh = match self.cfg.mode {
             0 | 1 => match self.versions.get(&key) {
